@@ -7,8 +7,9 @@
  R3 derived quantities: every stored quotient is wrapped in nan_to_num(nan=0, posinf=0, neginf=0);
  R4 definitions: margin = dem - gop, weights = dem + gop, normalized = margin / weights, turnout_factor = results_weights / baseline_weights;
  R5 defaults 0.5 / 2.0 / True / True / 2.0 and binding of every get_units argument to the model_parameters key of the same name;
- R6 baseline join (left, on state + unit id) and the two unreporting policies (zero also fills the derived quantities; drop = dropna any of the result columns;
-    zero = fill 0 and set percent_expected_vote to 0 on exactly the rows that had a missing result).
+ R6 baseline join (left, on state + unit id) and the two unreporting policies (drop = dropna any of the result columns; zero = fill
+    0 and set percent_expected_vote to 0 on exactly the rows that had a missing result, and fill every results-derived column
+    of those rows as well: R6.zero-derived).
 """
 from __future__ import annotations
 
